@@ -146,9 +146,11 @@ def build(cfg):
         suspicious = []
         for s in glob.glob(os.path.join(REPO, "src", "*.[ch]")):
             txt = open(s, errors="replace").read()
-            for pat in ("__asm", "asm(", "asm volatile", "syscall(", "rdrand", "rdseed", "_Thread_local", "__thread", "pthread_", "mtx_", "atomic", "__sync_", "mktime", "localtime"):
-                if pat in txt:
-                    suspicious.append("%s: %s" % (os.path.basename(s), pat))
+            for name, rx in (("inline assembly", r"\b(__asm__?|asm)\s*(volatile\s*)?\("), ("raw syscall", r"\bsyscall\s*\("), ("cpu entropy", r"rdrand|rdseed"),
+                             ("thread-local", r"\b(_Thread_local|__thread|thread_local)\b"), ("pthread", r"\bpthread_[a-z_]+"), ("c11 threads", r"\b(mtx|cnd|thrd|tss)_[a-z_]+\s*\("),
+                             ("atomics", r"\b_Atomic\b|\batomic_[a-z_]+|stdatomic\.h|__atomic_[a-z_]+|__sync_[a-z_]+"), ("calendar time", r"\b(mktime|localtime|gmtime|timegm)\s*\(")):
+                if re.search(rx, txt):
+                    suspicious.append("%s: %s" % (os.path.basename(s), name))
         link = [cxx] + [f for f in hflags if f.startswith("-fsanitize") or f in ("-g",)] + sim_objs + lib_objs + \
                ["-o", exe, "-lutf8proc", "-lpthread", "-Wl,-z,now"]
         run(link)
